@@ -1,6 +1,7 @@
 package rules
 
 import (
+	"strings"
 	"go/constant"
 	"go/types"
 
@@ -360,4 +361,42 @@ func sameHandle(a, b an.FV) bool {
 		return v
 	}
 	return addr(fa.X) == addr(fb.X)
+}
+
+// descIn describes a value of a helper frame in the root function's terms: the helper's parameter names are
+// replaced by the descriptions of the arguments the helper was called with (outwards, frame by frame).
+func descIn(x an.FV) string {
+	d := an.D().Of(x.V)
+	for f := x.F; f != nil && f.Parent != nil; f = f.Parent {
+		args := f.Site.Common().Args
+		for i, p := range f.Fn.Params {
+			if i >= len(args) {
+				break
+			}
+			d = replaceToken(d, "$"+p.Name(), an.D().Of(args[i]))
+		}
+	}
+	return d
+}
+
+// replaceToken replaces whole occurrences of the token (not followed by an identifier character).
+func replaceToken(s, tok, with string) string {
+	out := ""
+	for {
+		i := strings.Index(s, tok)
+		if i < 0 {
+			return out + s
+		}
+		end := i + len(tok)
+		if end < len(s) {
+			ch := s[end]
+			if ch == '_' || (ch >= '0' && ch <= '9') || (ch >= 'a' && ch <= 'z') || (ch >= 'A' && ch <= 'Z') {
+				out += s[:end]
+				s = s[end:]
+				continue
+			}
+		}
+		out += s[:i] + with
+		s = s[end:]
+	}
 }
